@@ -267,6 +267,10 @@ func (w *World) RunSyncT(f ConcFault) TObs {
 	w.Eth.ResetCalls()
 	w.Eth.SetFault(func(c fakeeth.Call) error {
 		if f.Side == "rpc" && f.At == c.N {
+			if f.Kind == "switch" { // not a failure: the node's canonical leaf switches before this call is served
+				w.eth().Switch(w.midTarget)
+				return nil
+			}
 			return errInjected
 		}
 		return nil
@@ -364,6 +368,8 @@ type TPlan struct {
 	D, MaxR, Start0                                       int
 	MinForkNum                                            int
 	BadReg                                                bool // the alphabet contains registrations that must be skipped
+	MidSwitch                                             bool
+	OnlyWith                                              string
 	MaxBeh                                                int
 	EnumEvery                                             int // every n-th history: each A step under every concrete fault
 }
@@ -378,10 +384,10 @@ func (p TPlan) cfgText(allowKnown bool) string {
 		offs = append(offs, fmt.Sprint(o))
 	}
 	return fmt.Sprintf("CONSTANTS\n  MaxBlocks = %d\n  MaxNum = %d\n  MaxLeaves = %d\n  MaxEntries = %d\n  MaxPerBlock = %d\n  NTrig = %d\n  ExpOffsets = {%s}\n"+
-		"  D = %d\n  MaxR = %d\n  Start0 = %d\n  Fetch = %q\n  AllowKnown = %s\n  Emit = TRUE\n  Faults = TRUE\n  MinForkNum = %d\n  AllowBadReg = %s\n"+
+		"  D = %d\n  MaxR = %d\n  Start0 = %d\n  Fetch = %q\n  AllowKnown = %s\n  Emit = TRUE\n  Faults = %s\n  MinForkNum = %d\n  AllowBadReg = %s\n  MidSwitch = %s\n  AllowOther = %s\n"+
 		"SPECIFICATION Spec\nINVARIANT C16_InvCex\nINVARIANT EmitInv\nVIEW View\nCHECK_DEADLOCK FALSE\n",
 		p.MaxBlocks, p.MaxNum, p.MaxLeaves, p.MaxEntries, p.MaxPerBlock, p.NTrig, strings.Join(offs, ", "),
-		p.D, p.MaxR, p.Start0, codeFetch, strings.ToUpper(fmt.Sprint(allowKnown)), p.MinForkNum, strings.ToUpper(fmt.Sprint(p.BadReg)))
+		p.D, p.MaxR, p.Start0, codeFetch, strings.ToUpper(fmt.Sprint(allowKnown)), strings.ToUpper(fmt.Sprint(!p.MidSwitch)), p.MinForkNum, strings.ToUpper(fmt.Sprint(p.BadReg)), strings.ToUpper(fmt.Sprint(p.MidSwitch)), strings.ToUpper(fmt.Sprint(!p.MidSwitch)))
 }
 
 type TGen struct {
@@ -442,6 +448,8 @@ type TLine struct {
 	Ret    string   `json:"ret,omitempty"`
 	Fault  bool     `json:"fault"`
 	Var    bool     `json:"var"`
+	Mid    int      `json:"mid"`  // >= 1: the canonical leaf switched after this many RPC calls of the step
+	From   int      `json:"from"` // the head the step was called with (mid-step switch)
 }
 
 // TOrigin is the context of a trace line for reports and replay files.
@@ -492,6 +500,18 @@ func replayT(plan string, cfgA TCfg, seed int64, hist []TOp, enum bool, forced *
 			call(b, "B", cfgB, i, ConcFault{}, false)
 		case "switch":
 			a.Switch(op.A)
+			call(b, "B", cfgB, i, ConcFault{}, false)
+		case "syncmid":
+			from := a.Canon
+			a.midTarget = op.A
+			o := a.RunSyncT(ConcFault{"rpc", op.Cut, "switch"})
+			cc := cfgA
+			line := TLine{K: "sync", Who: "A", Cfg: &cc, Blk: a.TreeCopy(), Canon: a.Canon, States: o.States, Ret: o.Ret, Fault: true, Mid: op.Cut, From: from}
+			lines = append(lines, line)
+			origins = append(origins, TOrigin{Plan: plan, Cfg: cfgA, Seed: seed, Hist: hist[:i+1], Step: i, Who: "A", Err: o.Err, Conc: ConcFault{"rpc", op.Cut, "switch"}, Line: line})
+			if a.Canon != op.A { // the call made fewer RPC calls than the model: switch now
+				a.Switch(op.A)
+			}
 			call(b, "B", cfgB, i, ConcFault{}, false)
 		case "sync":
 			if forced != nil && i == len(hist)-1 {
@@ -636,7 +656,19 @@ func replayAndValidateT(c *core.Ctx, g *TGen, extra [][]TOp) (*TOutcome, error) 
 	p := g.Plan
 	out := &TOutcome{Gen: g}
 	cfgA := TCfg{D: p.D, MaxR: p.MaxR, Start0: p.Start0, Fetch: codeFetch}
-	beh := selectT(g.Behaviours, p.MaxBeh, c.Seed)
+	all := g.Behaviours
+	if p.OnlyWith != "" {
+		all = nil
+		for _, h := range g.Behaviours {
+			for _, o := range h {
+				if o.Op == p.OnlyWith {
+					all = append(all, h)
+					break
+				}
+			}
+		}
+	}
+	beh := selectT(all, p.MaxBeh, c.Seed)
 	beh = append(append(append([][]TOp{}, g.Cex...), extra...), beh...)
 	type res struct {
 		lines   []TLine
@@ -795,6 +827,10 @@ func plansC16(thorough bool) []TPlan {
 	// blocks the fired row sits just below, exactly at and just above the rollback target block
 	plans = append(plans, TPlan{Name: "fork-edge", MaxBlocks: d(6, 7), MaxNum: d(4, 5), MaxLeaves: 2, MaxEntries: 2, MaxPerBlock: 1, NTrig: 1, ExpOffsets: []int{50},
 		D: 1, MaxR: 3, Start0: 1, MinForkNum: 2, MaxBeh: d(200, 3000), EnumEvery: d(4, 3)})
+	// the node switches to the other fork in the MIDDLE of a Sync call (after the 1st, 2nd, 3rd RPC
+	// call of syncRange); judged by the monitors from the next quiescent call on
+	plans = append(plans, TPlan{Name: "midswitch-multi", MaxBlocks: d(5, 6), MaxNum: d(3, 4), MaxLeaves: 2, MaxEntries: 2, MaxPerBlock: 1, NTrig: 1, ExpOffsets: []int{50},
+		D: 2, MaxR: 3, Start0: 1, MidSwitch: true, OnlyWith: "syncmid", MaxBeh: d(200, 2000)})
 	if thorough {
 		// rollback deeper than the fork: fired rows of common blocks are deleted and fired again
 		plans = append(plans, TPlan{Name: "fork-d2", MaxBlocks: 6, MaxNum: 4, MaxLeaves: 2, MaxEntries: 3, MaxPerBlock: 1, NTrig: 1, ExpOffsets: []int{1, 50},
@@ -871,6 +907,8 @@ func tHistString(h []TOp) string {
 			parts = append(parts, fmt.Sprintf("mine(b%d:%s)", o.A, e))
 		case "switch":
 			parts = append(parts, fmt.Sprintf("head(b%d)", o.A))
+		case "syncmid":
+			parts = append(parts, fmt.Sprintf("sync[head->b%d after RPC call %d]", o.A, o.Cut))
 		default:
 			parts = append(parts, "sync")
 		}
